@@ -28,6 +28,7 @@ type Case struct {
 	Cert     hx.Hex // signer certificate
 	Key      int    // pool key of the signer (-1: not available)
 	Detached bool
+	TZMin    int // process time zone offset from UTC in minutes while the library works (signing times are UTC whatever the zone)
 }
 
 func pemKeyCert(id gen.Identity) ([]byte, []byte) {
@@ -60,6 +61,9 @@ func genCase(t *rapid.T) Case {
 		if rapid.IntRange(0, 11).Draw(t, "noattr") == 0 {
 			o.NoAttr, o.CAdES, o.Receipt = true, false, false
 		}
+		if o.CMS && rapid.IntRange(0, 4).Draw(t, "typed") == 0 {
+			o.TypedOID = fmt.Sprintf("1.2.840.113549.1.9.16.1.%d", rapid.IntRange(1, 40).Draw(t, "ctarc"))
+		}
 		max := 2048
 		if rapid.IntRange(0, 9).Draw(t, "big") == 0 {
 			max = 65536
@@ -76,12 +80,12 @@ func genCase(t *rapid.T) Case {
 		if err != nil {
 			t.Fatalf("openssl: %v", err)
 		}
-		return Case{Source: "fresh:" + o.Name(), Sig: sig, Content: content, Cert: id.Cert.Raw, Key: id.Key, Detached: !o.NoDetach}
+		return Case{Source: "fresh:" + o.Name(), Sig: sig, Content: content, Cert: id.Cert.Raw, Key: id.Key, Detached: !o.NoDetach, TZMin: tz(t)}
 	case kind <= 4: // committed corpus
 		cp := seeds.OpenSSLCorpus()
 		if len(cp) > 0 {
 			e := cp[rapid.IntRange(0, len(cp)-1).Draw(t, "entry")]
-			return Case{Source: "corpus:" + e.Config, Sig: e.Sig, Content: e.Content, Cert: e.Cert, Key: e.Key, Detached: e.Detached}
+			return Case{Source: "corpus:" + e.Config, Sig: e.Sig, Content: e.Content, Cert: e.Cert, Key: e.Key, Detached: e.Detached, TZMin: tz(t)}
 		}
 		fallthrough
 	case kind <= 7: // harness emulation of the same producers (time and sizes the CLI cannot vary)
@@ -93,6 +97,12 @@ func genCase(t *rapid.T) Case {
 			NoCerts: rapid.IntRange(0, 3).Draw(t, "nocerts") == 0, ExtraAttr: rapid.IntRange(0, 3).Draw(t, "extra"), Sorted: true,
 			Time: time.Date(rapid.IntRange(1950, 2049).Draw(t, "year"), time.Month(rapid.IntRange(1, 12).Draw(t, "month")), rapid.IntRange(1, 28).Draw(t, "day"),
 				rapid.IntRange(0, 23).Draw(t, "h"), rapid.IntRange(0, 59).Draw(t, "m"), rapid.IntRange(0, 59).Draw(t, "s"), 0, time.UTC)}
+		typed := ""
+		if o.CMS && rapid.IntRange(0, 3).Draw(t, "typed") == 0 {
+			// openssl cms -econtent_type: another content type, SignedData version 3
+			o.EContentType = []uint64{1, 2, 840, 113549, 1, 9, 16, 1, uint64(rapid.IntRange(1, 40).Draw(t, "ctarc"))}
+			typed = ",econtent_type"
+		}
 		content := gen.SizedBytes(4096, 0, 1, 55, 56, 64, 65).Draw(t, "content")
 		if rapid.IntRange(0, 4).Draw(t, "dershaped") == 0 {
 			content = gen.DERShaped(t)
@@ -101,7 +111,7 @@ func genCase(t *rapid.T) Case {
 		if err != nil {
 			t.Fatalf("emulate: %v", err)
 		}
-		return Case{Source: fmt.Sprintf("emulated:cms=%v,attached=%v,caps=%v,nocerts=%v,extra=%d", o.CMS, o.Attached, o.SMIMECaps, o.NoCerts, o.ExtraAttr), Sig: sig, Content: content, Cert: id.Cert.Raw, Key: id.Key, Detached: !o.Attached}
+		return Case{Source: fmt.Sprintf("emulated:cms=%v,attached=%v,caps=%v,nocerts=%v,extra=%d", o.CMS, o.Attached, o.SMIMECaps, o.NoCerts, o.ExtraAttr) + typed, Sig: sig, Content: content, Cert: id.Cert.Raw, Key: id.Key, Detached: !o.Attached, TZMin: tz(t)}
 	default: // sbsign / sbvarsign artefacts
 		fx := seeds.Fixtures()
 		var with []seeds.Fixture
@@ -114,14 +124,28 @@ func genCase(t *rapid.T) Case {
 			t.Fatalf("no fixtures")
 		}
 		f := with[rapid.IntRange(0, len(with)-1).Draw(t, "fixture")]
-		return Case{Source: "fixture:" + f.Name, Sig: f.Blob, Cert: f.Cert.Raw, Key: -1, Detached: true}
+		return Case{Source: "fixture:" + f.Name, Sig: f.Blob, Cert: f.Cert.Raw, Key: -1, Detached: true, TZMin: tz(t)}
 	}
+}
+
+// tz draws the process time zone: UTC one time in three, else any quarter-hour offset in use on the planet.
+func tz(t *rapid.T) int {
+	if rapid.IntRange(0, 2).Draw(t, "utc") == 0 {
+		return 0
+	}
+	return 15 * rapid.IntRange(-48, 56).Draw(t, "tzquarters")
 }
 
 func checkCase(c Case) error {
 	cert, err := x509.ParseCertificate(c.Cert)
 	if err != nil {
 		return fmt.Errorf("bad case: %v", err)
+	}
+	if c.TZMin != 0 {
+		saved := time.Local
+		time.Local = time.FixedZone("verif", c.TZMin*60)
+		defer func() { time.Local = saved }()
+		hx.Class("process_time_zone_not_utc")
 	}
 	// what the reference sees
 	sd, err := cms.Parse(c.Sig)
